@@ -271,7 +271,7 @@ class Run:
     """One execution.  `observe` selects the per-tick observers (all on by default)."""
 
     def __init__(self, method=None, totalizer=True, start=True, observe=("tags", "mstate", "runlog", "updates"),
-                 wall_offset=0.037, built_before_start: float = 0.0):
+                 wall_offset=0.037, built_before_start: float = 0.0, initial_version: int = 0):
         install_determinism()
         _Det.counter = 0
         _Det.wall_offset = wall_offset
@@ -300,7 +300,7 @@ class Run:
         self._hook_error_state()
         if method is not None:
             self.lines = lines_of(method)
-            self.engine.set_method(to_method(self.lines))
+            self.engine.set_method(to_method(self.lines, version=initial_version))
         if start:
             self.user("Start")
 
@@ -360,12 +360,18 @@ class Run:
         self.requests.append(rec)
         return rec
 
-    def set_method(self, lines) -> dict:
+    def set_method(self, lines, version_mode=None) -> dict:
+        """version_mode: None = version 0 (the engine numbers the method itself); "same" = the version the engine's program has now;
+        "next" = that version + 1 (what an aggregator that counts along sends)"""
         lines = lines_of(lines)
+        version = 0
+        if version_mode is not None:
+            cur = int(getattr(self.engine.method_manager.program, "version", 0) or 0)
+            version = cur if version_mode == "same" else cur + 1
         rec = {"tick": self.tickno, "kind": "edit", "accepted": True, "error": None, "mode": None,
                "mstate_before": self.method_state(), "interrupts_before": len(self.engine.interpreter.interrupts)}
         try:
-            rec["mode"] = self.engine.set_method(to_method(lines))
+            rec["mode"] = self.engine.set_method(to_method(lines, version=version))
             self.lines = lines
         except MethodEditError as ex:
             rec["accepted"] = False
